@@ -493,7 +493,7 @@ pub fn run(ctx: &Ctx) -> Outcome {
     }
     let depth = if ctx.quick() { 5 } else { 7 };
     let deadline = Instant::now() + Duration::from_secs_f64(ctx.budget_s);
-    let idcs: Vec<u32> = if ctx.quick() { vec![0, u32::MAX - 1] } else { vec![0, u32::MAX - 2, u32::MAX - 1, u32::MAX] };
+    let idcs: Vec<u32> = if ctx.quick() { vec![0, u32::MAX - 1, u32::MAX] } else { vec![0, u32::MAX - 2, u32::MAX - 1, u32::MAX] };
     let mut states = 0;
     let mut transitions = 0;
     let mut executions = 0;
